@@ -1392,9 +1392,12 @@ def python_value_to_guppy_type(
         case float():
             return float_type()
         case tuple(elts):
+            # Ignore tuple hints of a different length. Otherwise, zipping would cut
+            # off the surplus elements of the value
             hints = (
                 type_hint.element_types
                 if isinstance(type_hint, TupleType)
+                and len(type_hint.element_types) == len(elts)
                 else len(elts) * [None]
             )
             tys = [
